@@ -213,9 +213,13 @@ SECTION_VALUES = {
     "stateless-class": lambda r: {"enabled": True, "min_methods": r.randint(1, 4)},
     "unwrap-abuse": lambda r: {"enabled": True, "allow_expect": r.random() < 0.5},
     "lazy-ignores": lambda r: {"enabled": r.random() < 0.5},
+    # a linter that is known under two section names (improper-logging, print-statements): the user's section must stay the one in effect
+    "improper-logging": lambda r: {"enabled": True, "allow_in_scripts": False},
+    "print-statements": lambda r: {"enabled": True, "allow_in_scripts": False},
 }
 DECODE = {"file-placement": ("file-placement", "global_deny"), "nesting": ("nesting", "max_nesting_depth"), "srp": ("srp", "max_methods"), "dry": ("dry", "min_duplicate_lines"), "magic-numbers": ("magic-numbers", "max_small_integer"),
-          "stateless-class": ("stateless-class", "min_methods"), "method-property": ("method-property", "max_body_statements")}
+          "stateless-class": ("stateless-class", "min_methods"), "method-property": ("method-property", "max_body_statements"),
+          "improper-logging": ("improper-logging", "allow_in_scripts")}
 
 
 def gen_existing(rng, i):
@@ -374,7 +378,8 @@ def run(ctx):
                 ctx.discrepancy("not-idempotent:%s" % case["style"], "%s step %d: running init-config again changed the file" % (case["id"], k), rep, fs)
         # in effect
         for sec, (cmdsec, key) in DECODE.items():
-            user_has = any(s.replace("_", "-") == sec for s in case["doc"]) or (sec == "file-placement" and "global_deny" in case["doc"])
+            user_has = any(s.replace("_", "-") == sec for s in case["doc"]) or (sec == "file-placement" and "global_deny" in case["doc"]) or \
+                (sec == "improper-logging" and any(s.replace("_", "-") == "print-statements" for s in case["doc"]))
             if not user_has:
                 continue
             ctx.count("in_effect_checks")
